@@ -269,6 +269,30 @@ def real_line(line):
 
 # ---------------------------------------------------------------- property clauses (search)
 
+_SLOW = {"n": 0}
+
+
+def guarded(fn, secs=3):
+    """run fn() under a CPU-time watchdog; after three expiries the guarded clauses are skipped for the rest of the run (a change that
+    makes a conversion loop for ever must show as a failure, not as a check that takes hours)"""
+    if _SLOW["n"] >= 3:
+        raise RuntimeError("skipped: three earlier calls did not return within the watchdog")
+
+    def _boom(*_a):
+        raise TimeoutError(f"does not return ({secs} s CPU)")
+
+    old_h = signal.signal(signal.SIGPROF, _boom)
+    signal.setitimer(signal.ITIMER_PROF, secs)
+    try:
+        return fn()
+    except TimeoutError:
+        _SLOW["n"] += 1
+        raise
+    finally:
+        signal.setitimer(signal.ITIMER_PROF, 0)
+        signal.signal(signal.SIGPROF, old_h)
+
+
 
 def check_float(F, b, prec):
     """Clauses of C13 for one float pattern on the real code.  Returns a list of failures
@@ -326,9 +350,9 @@ def check_float(F, b, prec):
             for q2, tag in ((want, "float"), (want + y, "float+tail")):
                 for L, fn in ((1, False), (2, False), (3, True), (None, False)):
                     if L is None:
-                        ws = U.fraction2expansion(dt, Fraction(q2), length=None)
+                        ws = guarded(lambda: U.fraction2expansion(dt, Fraction(q2), length=None))
                     else:
-                        ws = U.fraction2expansion(dt, Fraction(q2), length=L, functional=fn)
+                        ws = guarded(lambda: U.fraction2expansion(dt, Fraction(q2), length=L, functional=fn))
                     v = words_value(F, ws)
                     exact_due = (L is None or len(ws) < L or (tag == "float" and L >= 1))
                     if exact_due and v != q2:
@@ -338,6 +362,20 @@ def check_float(F, b, prec):
                         fail("expansion-from-fraction", f"fraction2expansion:functional-length:{kind}", length=L, got=len(ws))
         except Exception as e:
             fail("expansion-from-fraction-exception", f"fraction2expansion:{kind}:{type(e).__name__}", exc=repr(e)[:200])
+    # --- float2expansion: a wider float (float64) as an expansion of this format: exact while nothing underflows (length=None)
+    if kind == "normal" and F in ("16", "32"):
+        want = ref_value(F, b)
+        e2 = (b >> (P[F] - 1) & ((1 << EW[F]) - 1)) - (2 ** (EW[F] - 1) - 1)
+        tail = Fraction(5 + (b & 2), 1) * Fraction(2) ** (e2 - P[F] - 4) if e2 - 2 * P[F] - 8 > emin_of(F) + P[F] else Fraction(0)
+        q64 = numpy.float64(float(want + tail))
+        if Fraction(float(q64)) == want + tail:
+            try:
+                ws = guarded(lambda: U.float2expansion(dt, q64))
+                v = words_value(F, ws)
+                if v != want + tail:
+                    fail("expansion-from-float", f"float2expansion:value:{kind}", got=[pat(w) for w in ws], want=show_q(want + tail))
+            except Exception as e:
+                fail("expansion-from-float-exception", f"float2expansion:{kind}:{type(e).__name__}", exc=repr(e)[:200])
     # --- mpf
     if prec >= P[F]:
         try:
